@@ -8,5 +8,8 @@ import "verif/mon"
 func main() {
 	mon.Main(map[string]func(*mon.Run){
 		"C01": checkC01,
+		"C05": checkC05,
+		"C06": checkC06,
+		"C07": checkC07,
 	})
 }
